@@ -182,6 +182,8 @@ impl DescribedAccess {
     ensures
         old(self).counter >= old(self).field_count ==> r == Ok::<Option<ElemV>, Error>(None) && final(self).de == old(self).de,   // [C05.composite.trailing-fields-elided] no more fields than the (wire-declared) field count are read
         final(self).field_count >= old(self).field_count,            // [C04.described.field-count-checked] the field count announced on the wire is added with an overflow check (the arithmetic obligation at that addition is what pins D27) [C15.described.field-count-checked]
+        r is Ok && r->Ok_0 is Some ==> final(self).counter == old(self).counter + 1,       // [C05.composite.fields-counted-once] every field handed to the visitor is counted exactly once against the field count: the composite's trailing fields are elided at the right place
+        old(self).counter != 0 ==> final(self).field_count == old(self).field_count,       // [C05.composite.header-consumed-once] the list header of the composite is consumed with its FIRST element (the descriptor) and never again: a later field is not mistaken for a header
 //@@ end
 
 //@@ fn file=serde_amqp/src/de.rs impl=`~impl<'de,R:Read<'de>>de::MapAccess<'de>forDescribedAccess<'_,R>` name=next_key_seed id=described_next_key_seed
@@ -198,6 +200,8 @@ impl DescribedAccess {
     ensures
         old(self).counter >= old(self).field_count ==> r == Ok::<Option<ElemV>, Error>(None) && final(self).de == old(self).de,
         final(self).field_count >= old(self).field_count,            // [C04.described.field-count-checked] [C15.described.field-count-checked]
+        r is Ok && r->Ok_0 is Some ==> final(self).counter == old(self).counter + 1,       // [C05.composite.fields-counted-once]
+        old(self).counter != 0 ==> final(self).field_count == old(self).field_count,       // [C05.composite.header-consumed-once]
 //@@ end
 }
 
